@@ -14,7 +14,7 @@
 (*                         message sent so far may be published once more,   *)
 (*                         asynchronously                                    *)
 (*   Chk(h, live)          the processing goroutine of h called ctx.Err() and *)
-(*                         got nil (live) or an error; logged atomically with *)
+(*                         got nil (only such reads are logged), atomically with *)
 (*                         the read (the harness serializes its own cancel()  *)
 (*                         calls with it). Only present when the Reset event  *)
 (*                         says chk = TRUE, i.e. when a calibration run       *)
